@@ -161,8 +161,20 @@ def o7(tier):
     return memobs.save_message_upsert(tier, 'O7', 'O7')
 
 
+def o8(tier):
+    """the echo handler re-saves the message it looked up: that lookup must be the group's own copy"""
+    from props import memobs
+    return memobs.find_message_scoped(tier, 'O8', 'O8')
+
+
+def o9(tier):
+    """the snapshot taken before a commit is applied records THAT commit's id and timestamp, so the same commit delivered again never compares as better than itself"""
+    from props import C01
+    return _shared(lambda: C01.o4(tier), 'O9', 'shared with C01-O4: the epoch snapshot records the wrapper id and created_at of the commit being applied (also for the own commit merged from its echo), so its re-delivery is not a better candidate')
+
+
 def run(tier, seed, only=None):
-    obs = [('O1', o1), ('O2', o2), ('O3', o3), ('O4', o4), ('O5', o5), ('O6', o6), ('O7', o7)]
+    obs = [('O1', o1), ('O2', o2), ('O3', o3), ('O4', o4), ('O5', o5), ('O6', o6), ('O7', o7), ('O8', o8), ('O9', o9)]
     out = []
     for k, f in obs:
         if only and k not in only:
